@@ -169,12 +169,12 @@ func GenLogoutCase(r *rand.Rand, w *World, isResp bool) (*LogoutCase, error) {
 	for i := 0; i < nf; i++ {
 		lc.Fault = append(lc.Fault, injectLogoutFault(r, l))
 	}
-	lc.State = pick(r, []string{"unsigned", "trusted", "trusted", "untrusted", "foreign-key", "tampered", "relocated", "wrapped-fresh", "wrapped-same"})
+	lc.State = pick(r, []string{"unsigned", "trusted", "trusted", "untrusted", "foreign-key", "tampered", "relocated", "wrapped-fresh", "wrapped-same", "unsigned-flag-injected", "unsigned-shadow-attrs"})
 	st := sim.RandomStyle(r)
 	st.TextTricks = 0
 	lc.Presented = l
 	switch lc.State {
-	case "unsigned":
+	case "unsigned", "unsigned-flag-injected", "unsigned-shadow-attrs":
 	case "trusted", "tampered", "relocated", "wrapped-fresh", "wrapped-same":
 		l.Sig = randSigSpec(r, lc.Signer, true, false)
 		lc.Signed = l
@@ -191,6 +191,49 @@ func GenLogoutCase(r *rand.Rand, w *World, isResp bool) (*LogoutCase, error) {
 		return nil, err
 	}
 	switch lc.State {
+	case "unsigned-flag-injected":
+		// look-alikes of the library's own indicator supplied by the sender
+		d, err := sim.ParseDoc(x)
+		if err != nil {
+			return nil, err
+		}
+		switch r.IntN(4) {
+		case 0:
+			d.Root().CreateAttr("SignatureValidated", "true")
+		case 1:
+			c := etree.NewElement("SignatureValidated")
+			c.SetText("true")
+			d.Root().AddChild(c)
+		case 2:
+			c := etree.NewElement("samlp:SignatureValidated")
+			c.CreateAttr("xmlns:samlp", sim.NSP)
+			c.SetText("1")
+			d.Root().InsertChildAt(0, c)
+		case 3:
+			d.Root().CreateAttr("xmlns:ext", "urn:ext")
+			d.Root().CreateAttr("ext:SignatureValidated", "true")
+		}
+		x = sim.DocString(d)
+	case "unsigned-shadow-attrs":
+		// a foreign-namespace attribute with a checked attribute's local name, written BEFORE the real one, carrying
+		// the value the SP expects while the real attribute carries a wrong one: the real attribute decides
+		x, err = sim.BuildLogout(l, sim.PlainStyle()) // plain layout: the root start tag is the first tag of the text
+		if err != nil {
+			return nil, err
+		}
+		i := strings.Index(x, " ")
+		ev := *l
+		switch r.IntN(2) {
+		case 0:
+			ev.Destination = sim.S("https://other-sp.example.test/slo")
+			x = x[:i] + ` xmlns:ext="urn:ext" ext:Destination="` + SLO + `"` + strings.Replace(x[i:], ` Destination="`+strOr(l.Destination)+`"`, "", 1)
+			x = strings.Replace(x, ">", ` Destination="https://other-sp.example.test/slo">`, 1)
+		case 1:
+			ev.Version = sim.S("1.1")
+			x = x[:i] + ` xmlns:ext="urn:ext" ext:Version="2.0"` + strings.Replace(x[i:], ` Version="`+strOr(l.Version)+`"`, "", 1)
+			x = strings.Replace(x, ">", ` Version="1.1">`, 1)
+		}
+		lc.Presented = &ev
 	case "tampered":
 		d, err := sim.ParseDoc(x)
 		if err != nil {
@@ -225,7 +268,11 @@ func GenLogoutCase(r *rand.Rand, w *World, isResp bool) (*LogoutCase, error) {
 		sig := sim.SigOf(d.Root())
 		d.Root().RemoveChild(sig)
 		kids := d.Root().ChildElements()
-		switch r.IntN(3) {
+		mode := r.IntN(3)
+		if len(kids) == 0 {
+			mode = 1
+		}
+		switch mode {
 		case 0:
 			kids[r.IntN(len(kids))].AddChild(sig)
 		case 1:
@@ -322,7 +369,7 @@ func runC10(c *mon.Ctx) {
 		cls := ErrClass(gerr)
 		goodSig := lc.State == "trusted"
 		badSig := lc.State == "untrusted" || lc.State == "foreign-key" || lc.State == "tampered" || lc.State == "wrapped-same"
-		noSig := lc.State == "unsigned" || lc.State == "wrapped-fresh"
+		noSig := lc.State == "unsigned" || lc.State == "wrapped-fresh" || lc.State == "unsigned-flag-injected" || lc.State == "unsigned-shadow-attrs"
 		switch {
 		case lc.State == "relocated":
 			if gerr == nil {
